@@ -12,6 +12,7 @@ OBLIGATIONS = (
     + pick("C02", r"table\.del\.ns5", tiers=("quick", "thorough"))
     + pick("C04", r"array\.del\.n[23]", tiers=("quick", "thorough"))
     + pick("C03", r"tree\.clear\.q[35]$", tiers=("quick", "thorough"))
+    + pick("C10", r"box_owns\.", tiers=None)
 )
 LEVEL_TEXT = ("Bounded model checking of the collector's sweep and explicit deletion from an arbitrary valid registry (5 slots, 3-4 managed cells) with an arbitrary marking: exactly-once finalisation "
               "and release, order (finalise before release), survivors untouched; raw objects (String, Table, Array, Tree) release their storage exactly once on del_raw.")
